@@ -39,6 +39,7 @@ def step (s : S) (ws : List String) : S × String :=
   match ws with
   | ["txn", v] => match getV s v with | some x => ({ s with txn := some x }, "ok") | none => (s, "bad-op")
   | ["reuse", v] => match getV s v with | some x => ({ s with txn := some x }, "ok") | none => (s, "bad-op")
+  | ["reuse0", v] => match getV s v with | some x => ({ s with txn := some x }, "ok") | none => (s, "bad-op")
   | ["ins", d, l, v] =>
     match s.txn, parseK d l, v.toNat? with
     | some x, some (d, l), some v =>
